@@ -61,7 +61,7 @@ let () =
         let loc l = match l with
           | LIn (v, k) -> Printf.sprintf "LIn:%d:%d" (i v) (i k) | LCvc (v, k) -> Printf.sprintf "LCvc:%d:%d" (i v) (i k)
           | LX v -> Printf.sprintf "LX:%d" (i v) | LFb v -> Printf.sprintf "LFb:%d" (i v) | LF v -> Printf.sprintf "LF:%d" (i v)
-          | LBiasE b -> Printf.sprintf "LBiasE:%d" (i b) | LBiasF (b, k) -> Printf.sprintf "LBiasF:%d:%d" (i b) (i k) | LEnergy -> "LEnergy" in
+          | LBiasE b -> Printf.sprintf "LBiasE:%d" (i b) | LBiasF (b, k) -> Printf.sprintf "LBiasF:%d:%d" (i b) (i k) | LBiasState b -> Printf.sprintf "LBiasState:%d" (i b) | LEnergy -> "LEnergy" in
         let fps l = String.concat " | " (List.map (fun (r, wr) -> "R=" ^ String.concat "," (List.map loc r) ^ " W=" ^ String.concat "," (List.map loc wr)) l) in
         let tn = nat_of_int t in
         Printf.printf "COMP %s ; COLLECT %s ; BIAS %s\n" (fps (model_comp_fps c tn)) (fps (model_collect_fps c tn)) (fps (model_bias_fps c tn))
